@@ -697,14 +697,36 @@ theorem pickle_same (S : PrintPrec) (e : Expr) (listed : List String) (c : Compi
 
 /-- the printer `compile` uses is the C06 stringifier except for constants -/
 theorem compile_printer_is_stringifier (S : PrintPrec) (e : Expr) (enc : Nat) :
-    strG S (constPieces S) e enc = strE S e enc := strG_eq_strE S e enc
+    strG S (constPieces S) false e enc = strE S e enc := strG_eq_strE S e enc
 
 /-- … and since the repair of `CompileMapper.map_constant` (`repr` + the base class's sign
-parenthesisation) its constant printer is the stringifier's too: `CompileMapper.rec` IS
-`StringifyMapper.rec` on the modelled fragment -/
+parenthesisation) its constant printer is the stringifier's too: with the base class's handler
+for common subexpressions, `CompileMapper.rec` IS `StringifyMapper.rec` on the modelled fragment -/
 theorem compile_printer_is_stringifier_repaired (S : PrintPrec) (e : Expr) (enc : Nat) :
-    strG S (constPiecesRepr S) e enc = strE S e enc := by
+    strG S (constPiecesRepr S) false e enc = strE S e enc := by
   rw [constPiecesRepr_eq]; exact strG_eq_strE S e enc
+
+/-- **`CompileMapper` prints a tree as the stringifier prints the tree WITHOUT its
+`CommonSubexpression` wrappers** (`map_common_subexpression`: the child at the enclosing
+precedence) — on `cseShapeOk`: no wrapper stands where the base class looks at the node TYPE of a
+child (a product / division operand whose parent forces parentheses, a tuple index, a `None`
+slice part). -/
+theorem compile_printer_strips_cse (S : PrintPrec) (e : Expr) (enc : Nat)
+    (h : cseShapeOk e = true) :
+    strG S (constPiecesRepr S) true e enc = strE S (stripCse e) enc := by
+  rw [strG_bare_eq S _ e enc h]
+  exact compile_printer_is_stringifier_repaired S (stripCse e) enc
+
+/-- on a tree without wrappers the compile printer is the stringifier -/
+theorem compile_printer_is_stringifier_cse_free (S : PrintPrec) (e : Expr) (enc : Nat)
+    (h : cseShapeOk e = true) (hfree : stripCse e = e) :
+    strG S (constPiecesRepr S) true e enc = strE S e enc := by
+  rw [compile_printer_strips_cse S e enc h, hfree]
+
+/-- **a wrapper means its child**: the wrapper-free tree has the value (or error) of the tree,
+in every environment -/
+theorem strip_cse_value (env : Env) (e : Expr) : den env (stripCse e) = den env e :=
+  den_stripCse env e
 
 
 /-! ## The compiled SOURCE under Python's grammar
@@ -796,46 +818,52 @@ example : parseTop pythonPrec 0 [.ident "a", .sym "&", .ident "b", .sym "==", .i
 example : parseTop pythonPrec 0 [.ident "a", .sym "|", .ident "b", .sym "^", .ident "c"]
     = .ok (.nary .bor [.var "a", .nary .bxor [.var "b", .var "c"]]) := by decide +kernel
 
-/-- **The compiled source IS the stringifier's text** (unconditionally, since the repair of
-`CompileMapper.map_constant`; before it this held only where no signed constant needed
-parentheses). -/
-theorem compile_text_is_str (S : PrintPrec) (e : Expr) : compilePieces S e = strTop S e :=
-  compile_printer_is_stringifier_repaired S e S.none
+/-- **The compiled source IS the stringifier's text of the wrapper-free tree** (since the
+repairs of `CompileMapper.map_constant` and `map_common_subexpression`). -/
+theorem compile_text_is_str (S : PrintPrec) (e : Expr) (h : cseShapeOk e = true) :
+    compilePieces S e = strTop S (stripCse e) :=
+  compile_printer_strips_cse S e S.none h
 
 /-- **The compiled source groups the way the tree does, for ANY parser table and printer table**:
-the round-trip theorem of C06 applied to the compiled source.  For every tree of the C06 fragment
-`InFragment P S` (covered node shapes; every child passes the local condition
-`okTriple P S position class`) the compiled source exists, its token list is parsed —
-completely, with the fuel `parseTop` really uses — to the parser's normal form `pnf e` of the
-tree, which is `e` once nested sums and products are flattened, and compiling that normal form
-gives the same source again. -/
+the round-trip theorem of C06 applied to the compiled source.  Let no wrapper of `e` stand where
+the base class looks at a child's node type (`cseShapeOk`) and let the wrapper-free tree
+`stripCse e` be in the C06 fragment `InFragment P S`.  Then the compiled source exists, its token
+list is parsed — completely, with the fuel `parseTop` really uses — to the parser's normal form
+`pnf (stripCse e)`, which is `stripCse e` once nested sums and products are flattened and which
+prints to the same source; and `stripCse e` has the value of `e` in every environment. -/
 theorem compile_source_groups_partial {P : ParserPrec} {S : PrintPrec} {e : Expr}
-    (h : InFragment P S e = true) :
-    ∃ ps, compilePieces S e = .ok ps ∧ parseTop P 0 (toks ps) = .ok (pnf e) ∧
-      flattenAssoc (pnf e) = flattenAssoc e ∧ compilePieces S (pnf e) = .ok ps := by
-  obtain ⟨ps, hs⟩ := C06.print_total h
-  have hp := C06.roundtrip_normal_form h hs
+    (hs : cseShapeOk e = true) (h : InFragment P S (stripCse e) = true) :
+    ∃ ps, compilePieces S e = .ok ps ∧ parseTop P 0 (toks ps) = .ok (pnf (stripCse e)) ∧
+      flattenAssoc (pnf (stripCse e)) = flattenAssoc (stripCse e) ∧
+      strTop S (pnf (stripCse e)) = .ok ps ∧ ∀ env, den env (stripCse e) = den env e := by
+  obtain ⟨ps, hps⟩ := C06.print_total h
+  have hp := C06.roundtrip_normal_form h hps
   simp only [InFragment, Bool.and_eq_true] at h
-  refine ⟨ps, by rw [compile_text_is_str]; exact hs, hp, flatten_pnf h.1, ?_⟩
-  rw [compile_text_is_str, ← hs]
+  refine ⟨ps, by rw [compile_text_is_str S e hs]; exact hps, hp, flatten_pnf h.1, ?_,
+    fun env => den_stripCse env e⟩
+  rw [← hps]
   exact str_pnf h.1 S.none
 
-/-- the compiler's printer does not see the nesting of sums and products -/
-theorem compile_flatten_invariant (S : PrintPrec) {e : Expr} (h : nonemptyNary e = true) :
-    compilePieces S (flattenAssoc e) = compilePieces S e := by
-  rw [compile_text_is_str, compile_text_is_str]
+/-- the compiler's printer does not see the nesting of sums and products (nor the wrappers) -/
+theorem compile_flatten_invariant (S : PrintPrec) {e : Expr} (hs : cseShapeOk e = true)
+    (h : nonemptyNary (stripCse e) = true) :
+    strTop S (flattenAssoc (stripCse e)) = compilePieces S e := by
+  rw [compile_text_is_str S e hs]
   exact C06.str_flatten_invariant S h
 
 /-- the same with sums and products nested in any way (the local conditions are checked on the
-flattened tree) -/
+flattened wrapper-free tree) -/
 theorem compile_source_groups_flat_partial {P : ParserPrec} {S : PrintPrec} {e : Expr}
-    (h : InFragmentFlat P S e = true) :
+    (hs : cseShapeOk e = true) (h : InFragmentFlat P S (stripCse e) = true) :
     ∃ ps e', compilePieces S e = .ok ps ∧ parseTop P 0 (toks ps) = .ok e' ∧
-      flattenAssoc e' = flattenAssoc e := by
-  simp only [InFragmentFlat, Bool.and_eq_true] at h
-  obtain ⟨ps, hps, hparse, hflat, _⟩ := compile_source_groups_partial h.2
-  refine ⟨ps, _, by rw [← compile_flatten_invariant S h.1]; exact hps, hparse, ?_⟩
-  rw [hflat, flattenAssoc_idem]
+      flattenAssoc e' = flattenAssoc (stripCse e) ∧ ∀ env, den env (stripCse e) = den env e := by
+  have h' := h
+  simp only [InFragmentFlat, Bool.and_eq_true] at h'
+  obtain ⟨ps, hps⟩ := C06.print_total h'.2
+  rw [C06.str_flatten_invariant S h'.1] at hps
+  obtain ⟨e', hp, hf, _⟩ := C06.roundtrip_flat_partial h hps
+  exact ⟨ps, e', by rw [compile_text_is_str S e hs]; exact hps, hp, hf,
+    fun env => den_stripCse env e⟩
 
 /-- what `compile` stores as the body of the lambda is the rendering of `compilePieces` -/
 theorem compile_src_is_render {S : PrintPrec} {e : Expr} {listed : List String} {c : Compiled}
@@ -860,30 +888,33 @@ computed from the Python table and the REGENERATED stringifier table (covered no
 local condition `gOk` at every child: C06's condition with `repr` constants, and every `not`
 operand parenthesised or where Python's grammar admits it), and let `compile(e, listed)`
 succeed.  Then the body of the lambda handed to `eval` is the rendering of a piece list whose
-tokens the parser model with the Python table reads — all of them — as a tree that is `e` once
-nested sums and products are flattened: executing the source evaluates the tree the evaluator
-evaluates.  (The `not` condition is not used by the proof: it delimits the texts on which the
+tokens the parser model with the Python table reads — all of them — as a tree that is `e` without
+its `CommonSubexpression` wrappers, once nested sums and products are flattened, and that tree
+has the value of `e` in every environment: executing the source evaluates a tree that means what
+the evaluator's tree means.  (The `not` condition is not used by the proof: it delimits the texts on which the
 parser model with the Python table is tied to CPython.) -/
 theorem compile_source_groups_current {e : Expr} {listed : List String} {c : Compiled}
     (h : InFragmentPy pythonPrec printPrec e = true)
     (hc : compileModel printPrec e listed = .ok c) :
     ∃ ps e', compilePieces printPrec e = .ok ps ∧ c.src = render ps ∧
       c.lambdaSrc = "lambda " ++ ",".intercalate c.args ++ ": " ++ render ps ∧
-      parseTop pythonPrec 0 (toks ps) = .ok e' ∧ flattenAssoc e' = flattenAssoc e := by
+      parseTop pythonPrec 0 (toks ps) = .ok e' ∧ flattenAssoc e' = flattenAssoc (stripCse e) ∧
+      ∀ env, den env (stripCse e) = den env e := by
   simp only [InFragmentPy, Bool.and_eq_true] at h
-  obtain ⟨ps, hps, hparse, hflat, _⟩ := compile_source_groups_partial h.1
+  obtain ⟨ps, hps, hparse, hflat, _, hden⟩ := compile_source_groups_partial h.1.1 h.1.2
   obtain ⟨h1, h2⟩ := compile_src_is_render hc hps
-  exact ⟨ps, pnf e, hps, h1, h2, hparse, hflat⟩
+  exact ⟨ps, pnf (stripCse e), hps, h1, h2, hparse, hflat, hden⟩
 
 /-- the same for trees whose sums and products are nested in any way -/
 theorem compile_source_groups_flat_current {e : Expr} {listed : List String} {c : Compiled}
     (h : InFragmentPyFlat pythonPrec printPrec e = true)
     (hc : compileModel printPrec e listed = .ok c) :
     ∃ ps e', compilePieces printPrec e = .ok ps ∧ c.src = render ps ∧
-      parseTop pythonPrec 0 (toks ps) = .ok e' ∧ flattenAssoc e' = flattenAssoc e := by
+      parseTop pythonPrec 0 (toks ps) = .ok e' ∧ flattenAssoc e' = flattenAssoc (stripCse e) ∧
+      ∀ env, den env (stripCse e) = den env e := by
   simp only [InFragmentPyFlat, Bool.and_eq_true] at h
-  obtain ⟨ps, e', hps, hparse, hflat⟩ := compile_source_groups_flat_partial h.1
-  exact ⟨ps, e', hps, (compile_src_is_render hc hps).1, hparse, hflat⟩
+  obtain ⟨ps, e', hps, hparse, hflat, hden⟩ := compile_source_groups_flat_partial h.1.1 h.1.2
+  exact ⟨ps, e', hps, (compile_src_is_render hc hps).1, hparse, hflat, hden⟩
 
 /-- **Which (position, child class) pairs fail the local condition of C13** for the Python table
 and the regenerated stringifier table — exactly these 40:
@@ -968,7 +999,7 @@ theorem compile_neg_base_source_ok :
 `constPiecesReprBare`): `compile(Power(-2, a))` had the source `-2**a`, which the Python table
 (like Python) reads as `-(2**a)` -/
 theorem compile_neg_base_source_cex :
-    ∃ ps e', strG printPrec constPiecesReprBare (.bin .pow (.const (.int (-2))) sa) printPrec.none
+    ∃ ps e', strG printPrec constPiecesReprBare false (.bin .pow (.const (.int (-2))) sa) printPrec.none
         = .ok ps ∧
       render ps = "-2**a" ∧
       parseTop pythonPrec 0 (toks ps) = .ok e' ∧
@@ -981,6 +1012,40 @@ theorem compile_neg_base_source_cex :
 example : InFragmentPy pythonPrec printPrec
     (.nary .prod [.const (.int (-1)), .bin .quot (.bin .pow sa (.const (.int (-2)))) (.const (.int (-2))),
       .un .bnot (.const (.int (-2)))]) = true := by decide +kernel
+
+/-- wrappers (with and without prefix, nested) are inside the fragment where the base class does
+not look at the child's node type: `CSE(a + b)*c` has the source `(a + b)*c` -/
+example : InFragmentPy pythonPrec printPrec
+    (.nary .prod [.cse (.cse (.nary .sum [sa, sb]) (some "t") "e") none "e", .cse sz none "e"]) = true ∧
+    (compilePieces printPrec
+      (.nary .prod [.cse (.cse (.nary .sum [sa, sb]) (some "t") "e") none "e", .cse sz none "e"])).map render
+      = .ok "(a + b)*z" := ⟨by decide +kernel, by decide +kernel⟩
+
+/-- the forced parentheses look through wrappers (`CompileMapper.rec_with_force_parens_around`):
+`compile(Quotient(z, CommonSubexpression(Product((a, b)))))` has the source `z / (a*b)` and is in
+the fragment.  (A first version of the repair printed the child bare, `z / a*b` — Python:
+`(z / a)*b`, 18 instead of 2 at a = 2, b = 3, z = 12; it was rejected because the proof of
+`compile_printer_strips_cse` got stuck at exactly this shape.) -/
+theorem compile_cse_forced_parens_ok :
+    InFragmentPy pythonPrec printPrec (.bin .quot sz (.cse (.nary .prod [sa, sb]) none "e")) = true ∧
+    (compilePieces printPrec (.bin .quot sz (.cse (.nary .prod [sa, sb]) none "e"))).map render
+      = .ok "z / (a*b)" ∧
+    (compilePieces printPrec (.nary .prod [sz, .cse (.cse (.bin .floordiv sa sb) (some "t") "e") none "e"])).map
+      render = .ok "z*(a // b)" :=
+  ⟨by decide +kernel, by decide +kernel, by decide +kernel⟩
+
+/-- the two shapes `cseShapeOk` excludes: a wrapper around a tuple index prints `a[(b, z)]`
+(the stringifier's text of the wrapper-free tree is `a[b, z]`: the same Python value, the same
+parse), a wrapper around `None` in a slice is a foreign object -/
+theorem compile_cse_index_tuple_witness :
+    cseShapeOk (.subscript sa (.cse (.tuple [sb, sz]) none "e")) = false ∧
+    (compilePieces printPrec (.subscript sa (.cse (.tuple [sb, sz]) none "e"))).map render
+      = .ok "a[(b, z)]" ∧
+    (strTop printPrec (stripCse (.subscript sa (.cse (.tuple [sb, sz]) none "e")))).map render
+      = .ok "a[b, z]" ∧
+    ∃ ps, compilePieces printPrec (.subscript sa (.cse (.tuple [sb, sz]) none "e")) = .ok ps ∧
+      parseTop pythonPrec 0 (toks ps) = .ok (.subscript sa (.tuple [sb, sz])) :=
+  ⟨by decide +kernel, by decide +kernel, by decide +kernel, _, rfl, by decide +kernel⟩
 
 /-- the `not` condition is needed for the tie to Python, not for the parser model: the scheme
 reads `not a == b` as `(not a) == b` (one level for all prefix operators), Python as
@@ -1146,7 +1211,7 @@ path (before the repair of `CompileMapper.map_constant` it was `-2**a`, Python: 
 theorem compile_neg_base_witness :
     compilePieces Generated.printPrec (.bin .pow (.const (.int (-2))) va)
       = .ok [sy "(", sy "-", .tok (.int 2), sy ")", sy "**", .tok (.ident "a")]
-    ∧ strG Generated.printPrec constPiecesReprBare (.bin .pow (.const (.int (-2))) va)
+    ∧ strG Generated.printPrec constPiecesReprBare false (.bin .pow (.const (.int (-2))) va)
         Generated.printPrec.none
       = .ok [sy "-", .tok (.int 2), sy "**", .tok (.ident "a")]
     ∧ strTop Generated.printPrec (.bin .pow (.const (.int (-2))) va)
@@ -1209,5 +1274,13 @@ example : RtOk (.nary .sum [va, vb, .nary .prod [va, .const (.int (-2))]]) := by
 
 example : (compileModel Generated.printPrec (.nary .sum [.var "z", .var "y", va]) ["y"]).map (·.args)
     = .ok ["y", "a", "z"] := by decide
+
+/-- a variable that occurs only inside a `CommonSubexpression` wrapper is an argument like any
+other (the dependency scan enters wrappers; `compile_args` speaks about the ORIGINAL tree), and
+the source is that of the wrapper-free tree -/
+example : (compileModel Generated.printPrec
+      (.nary .sum [.cse (.var "z") none "e", va, .cse (.cse (.nary .prod [vb, .const (.int 2)]) (some "t") "e") none "e"])
+      ["b"]).map (fun c => (c.args, c.src))
+    = .ok (["b", "a", "z"], "z + a + b*2") := by decide +kernel
 
 end PV.C13
